@@ -10,6 +10,7 @@
 
 #include <locale>
 #include <clocale>
+#include <cerrno>
 
 namespace vf_early {
 
@@ -66,13 +67,20 @@ struct HostileNumpunct : std::numpunct<char> {
 
 // One call of every family with inputs that need every entry of every table the library could keep: all 256 byte
 // values through the codecs and the case mappings, every digit of every radix, every format class.
+// errno as the caller left it: every library call of the battery starts with this value in errno (0 normally, ERANGE in the
+// hostile-environment run: a stale error code of an earlier, unrelated call must not influence anything)
+inline int &errno_preset()
+{
+    static int v = 0;
+    return v;
+}
 inline std::string battery()
 {
     std::string out;
-    auto sec = [&](const char *name) { out += std::string("\n#") + name + ":"; };
-    auto put = [&](const ST::string &s) { out.append(s.c_str(), s.size()); out += '|'; };
-    auto putb = [&](const ST::char_buffer &b) { out.append(b.data(), b.size()); out += '|'; };
-    auto num = [&](long long v) { out += std::to_string(v); out += ','; };
+    auto sec = [&](const char *name) { out += std::string("\n#") + name + ":"; errno = errno_preset(); };
+    auto put = [&](const ST::string &s) { out.append(s.c_str(), s.size()); out += '|'; errno = errno_preset(); };
+    auto putb = [&](const ST::char_buffer &b) { out.append(b.data(), b.size()); out += '|'; errno = errno_preset(); };
+    auto num = [&](long long v) { out += std::to_string(v); out += ','; errno = errno_preset(); };
     try {
         char all[256];
         for (int i = 0; i < 256; ++i) all[i] = (char)i;
@@ -226,6 +234,7 @@ inline std::string run_in_child(bool hostile_locale)
     if (pid == 0) {
         close(fd[0]);
         if (hostile_locale) {
+            errno_preset() = ERANGE;
             setlocale(LC_ALL, "C.UTF-8");
             std::locale l(std::locale(std::locale::classic(), new HostileCtype), new HostileNumpunct);
             std::locale::global(l);
@@ -290,18 +299,18 @@ inline void add_stage(vf::Plan &plan)
                    c.nontrivial();
                },
                [](uint64_t) { return std::string("battery of library calls before main() and in main()"); });
-    plan.stage("process locale: the same battery in a child whose global C++ locale has its own ctype<char> (bytes >= 0x80, dotless/dotted i) and "
-               "numpunct (decimal comma, grouping) and whose C locale is C.UTF-8, compared with the classic locale",
+    plan.stage("process environment: the same battery in a child whose global C++ locale has its own ctype<char> (bytes >= 0x80, dotless/dotted i) and "
+               "numpunct (decimal comma, grouping), whose C locale is C.UTF-8 and where errno holds ERANGE before every call, compared with the plain run",
                1,
                [](uint64_t, vf::Ctx &c) {
                    std::string plain = battery(), hostile = run_in_child(true);
                    VF_COUNT("validated");
                    std::string d = first_difference(hostile, plain);
                    if (hostile.find("\n#crash:") != std::string::npos || hostile.find("\n#exit:") != std::string::npos)
-                       c.fail("process-locale:library-call-fails", hostile.substr(hostile.rfind("\n#") + 2));
+                       c.fail("process-environment:library-call-fails", hostile.substr(hostile.rfind("\n#") + 2));
                    else if (!d.empty())
-                       c.fail("process-locale:result-depends-on-the-global-locale:" + d,
-                              vf::strf("with a non-classic global locale the battery differs; first difference in section '%s'", d.c_str()));
+                       c.fail("process-environment:result-depends-on-locale-or-errno:" + d,
+                              vf::strf("with a non-classic global locale and a stale errno the battery differs; first difference in section '%s'", d.c_str()));
                    c.nontrivial();
                },
                [](uint64_t) { return std::string("battery under a non-classic global locale"); });
